@@ -128,6 +128,10 @@ class ClimbHooks(Hooks):
                 tab = self.binops if b.endswith("BinaryOperators") else self.unops
                 if self.op in tab:
                     return tab[self.op][0 if expr.attr == "prec" else 1]
+        if isinstance(expr, ast.Attribute) and expr.attr in ("prec", "assoc") and isinstance(expr.value, ast.Name):
+            v = st.env.get(expr.value.id)
+            if isinstance(v, tuple) and len(v) == 2:
+                return v[0 if expr.attr == "prec" else 1]  # a table entry bound to a local
         if isinstance(expr, ast.Compare) and len(expr.ops) == 1 and isinstance(expr.ops[0], (ast.In, ast.NotIn)):
             r = u(expr.comparators[0])
             if r.endswith("BinaryOperators") or r.endswith("UnaryOperators"):
